@@ -268,7 +268,7 @@ theorem lookup_assigns_other (v : Nat) (items : List Item) (fr : Frame)
     | _ => simp only [assigns]; exact ih _ h.2
 
 /-- what `include [t]` into a fresh `with` frame leaves behind when `t` is a module template -/
-theorem include_module (env : Env) (ctx : Frame) (f : Nat) (cur : Option Nat) (disc : Bool) (outer : Nat)
+theorem include_module (env : Env) (ctx : Cfg) (f : Nat) (cur : Option Nat) (disc : Bool) (outer : Nat)
     (t : Nat) (T : Template) (hT : env[t]? = some T) (hs : T.layout.all Item.isAssign = true)
     (st : St) (hd : outer + INCLUDE_COST + (st.frames.length + 1) ≤ LIMIT) :
     ∃ o, performInclude env (evalImpl env ctx (f + 1)) cur disc false outer [t] false
@@ -297,7 +297,7 @@ theorem pushFails_false_of (outer : Nat) (fs : List Frame)
     (hd : outer + INCLUDE_COST + (fs.length + 1) ≤ LIMIT) : pushFails outer fs = false := by
   simp only [pushFails, decide_eq_false_iff_not]; omega
 
-theorem importAs_step (env : Env) (ctx : Frame) (f : Nat) (cur : Option Nat) (d0 e0 : Bool) (outer : Nat)
+theorem importAs_step (env : Env) (ctx : Cfg) (f : Nat) (cur : Option Nat) (d0 e0 : Bool) (outer : Nat)
     (ae : AE) (parent : Option (List Item)) (t v : Nat) (T : Template) (hT : env[t]? = some T)
     (hs : T.layout.all Item.isAssign = true) (rest : List Item) (st : St)
     (hd : outer + INCLUDE_COST + (st.frames.length + 1) ≤ LIMIT) :
@@ -308,7 +308,7 @@ theorem importAs_step (env : Env) (ctx : Frame) (f : Nat) (cur : Option Nat) (d0
   simp only [stepItems, pushFails_false_of outer st.frames hd, Bool.false_eq_true, if_false, ho,
     topFrame_snoc, take_append_one, andThen_nil]
 
-theorem fromImport_step (env : Env) (ctx : Frame) (f : Nat) (cur : Option Nat) (d0 e0 : Bool) (outer : Nat)
+theorem fromImport_step (env : Env) (ctx : Cfg) (f : Nat) (cur : Option Nat) (d0 e0 : Bool) (outer : Nat)
     (ae : AE) (parent : Option (List Item)) (t name alias : Nat) (T : Template) (hT : env[t]? = some T)
     (hs : T.layout.all Item.isAssign = true) (rest : List Item) (st : St)
     (hd : outer + INCLUDE_COST + (st.frames.length + 1) ≤ LIMIT) :
@@ -371,31 +371,30 @@ theorem store_length (fs : List Frame) (v : Nat) (x : Val) : (store fs v x).leng
       have := congrArg List.length h; simpa using this
     simp [this]
 
-theorem varItem_fine (ctx : Frame) (q : Bool) (ae : AE) (it : Item) (fs : List Frame)
+theorem emitUndef_fine (cfg : Cfg) (q : Bool) (ae : AE) (fs : List Frame) :
+    Fine fs.length (emitUndef cfg q ae fs) := by
+  unfold emitUndef
+  split
+  · exact fine_error (by simp)
+  · split <;> exact fine_ok rfl
+
+theorem varItem_fine (ctx : Cfg) (q : Bool) (ae : AE) (it : Item) (fs : List Frame)
     (r : Except Err (List String × List Frame))
     (h : varItem ctx q ae it fs = some r) : Fine fs.length r := by
   unfold varItem at h
   cases it <;> simp only [] at h <;> try (cases h)
   case text s => exact fine_ok rfl
   case required => exact fine_ok rfl
-  case emitVar v =>
-    split at h
-    · cases h; exact fine_ok rfl
-    · cases h; exact fine_ok rfl
-    · split at h <;> cases h <;> exact fine_ok rfl
-    · cases h; exact fine_ok rfl
-    · cases h; exact fine_ok rfl
-    · cases h; exact fine_error (by simp)
   case setVar v s => exact fine_ok (store_length _ _ _)
   case defMacro v s => exact fine_ok (store_length _ _ _)
-  case emitAttr v a =>
-    split at h
-    · split at h <;> cases h <;> first | exact fine_ok rfl | exact fine_error (by simp)
-    all_goals (cases h; exact fine_error (by simp))
-  case emitKeys v =>
-    split at h <;> cases h <;> first | exact fine_ok rfl | exact fine_error (by simp)
-  case callVar v =>
-    split at h <;> cases h <;> first | exact fine_ok rfl | exact fine_error (by simp)
+  all_goals
+    repeat' split at h
+    all_goals
+      cases h
+      first
+        | exact fine_ok rfl
+        | exact fine_error (by simp)
+        | exact emitUndef_fine _ _ _ _
 
 /-- the callbacks one level down are `Fine` wherever the guards of `specItems` let them be called
     from a statement list running at `outer` with `n` frames -/
@@ -508,7 +507,7 @@ theorem specLoop_fine (run : List Frame → SRes) (v : Nat) (vals : List String)
         | ok q => obtain ⟨o', s'⟩ := q; exact fine_ok (hr.2 o' s' hrr)
   exact key _ (fine_ok hfs)
 
-theorem specItems_fine (env : Env) (ctx : Frame) {cbs : SpecCbs} {outer n : Nat} (h : CbFine cbs outer n)
+theorem specItems_fine (env : Env) (ctx : Cfg) {cbs : SpecCbs} {outer n : Nat} (h : CbFine cbs outer n)
     (D : Nat → List (List Item)) (cur : Option (Nat × Nat)) (disc ext : Bool) (ae : AE) (items : List Item)
     (hsame : ∀ m body, Item.autoesc m body ∈ items → body.any isAutoesc = false →
       ∀ fs1 : List Frame, fs1.length = n → Fine n (cbs.list D cur disc ext outer m body fs1))
@@ -622,6 +621,7 @@ theorem specItems_fine (env : Env) (ctx : Frame) {cbs : SpecCbs} {outer n : Nat}
           | ok q =>
             obtain ⟨o, s⟩ := q
             exact hcont _ (fine_ok (by rw [store_length]; exact hfs))
+    | badTarget => simp only [specItems]; exact fine_error (by simp)
     | autoesc m body =>
       simp only [specItems]
       cases hx : (body.any isExtends || body.any isAutoesc) with
@@ -716,9 +716,6 @@ theorem specItems_fine (env : Env) (ctx : Frame) {cbs : SpecCbs} {outer n : Nat}
     sources); with a cost of 0 include cycles would not be stopped by the recursion limit -/
 theorem INCLUDE_COST_pos : 1 ≤ INCLUDE_COST := by decide
 
-/-- fuel that suffices for everything nested below depth `d` -/
-def W (E d : Nat) : Nat := (LIMIT + 1 - d) * (E + 3)
-
 theorem W_succ (E d : Nat) (h : d ≤ LIMIT) : W E d = W E (d + 1) + (E + 3) := by
   unfold W
   have : LIMIT + 1 - d = (LIMIT + 1 - (d + 1)) + 1 := by omega
@@ -733,7 +730,7 @@ theorem W_pos (E d : Nat) (h : d ≤ LIMIT) : 1 ≤ W E d := by
 
 /-- with `f` levels of fuel, nothing that starts at a depth the fuel covers runs out of fuel,
     and every successful run returns as many frames as it was given -/
-structure Term (env : Env) (ctx : Frame) (f : Nat) : Prop where
+structure Term (env : Env) (ctx : Cfg) (f : Nat) : Prop where
   list : ∀ D cur disc ext outer ae items (fs : List Frame), outer + fs.length ≤ LIMIT →
     W env.length (outer + fs.length) ≤ f →
     Fine fs.length ((specAll env ctx f).list D cur disc ext outer ae items fs)
@@ -749,7 +746,7 @@ structure Term (env : Env) (ctx : Frame) (f : Nat) : Prop where
     W env.length (outer + fs.length + 1) + (env.length - chain.tail.length) + 2 ≤ f →
     Fine fs.length ((specAll env ctx f).chain chain disc outer ae layout fs)
 
-theorem cbfine_of_term {env : Env} {ctx : Frame} {f : Nat} (ht : Term env ctx f) (outer n : Nat)
+theorem cbfine_of_term {env : Env} {ctx : Cfg} {f : Nat} (ht : Term env ctx f) (outer n : Nat)
     (hw : W env.length (outer + n + 1) ≤ f) :
     CbFine (specAll env ctx f) outer n := by
   refine ⟨?_, ?_, ?_, ?_⟩
@@ -772,7 +769,7 @@ theorem cbfine_of_term {env : Env} {ctx : Frame} {f : Nat} (ht : Term env ctx f)
     simp only [List.tail_cons, List.length_nil, Nat.sub_zero]
     omega
 
-theorem term_zero (env : Env) (ctx : Frame) : Term env ctx 0 := by
+theorem term_zero (env : Env) (ctx : Cfg) : Term env ctx 0 := by
   refine ⟨?_, ?_, ?_, ?_⟩
   · intro D cur disc ext outer ae items fs hd hw
     have := W_pos env.length _ hd; omega
@@ -783,7 +780,7 @@ theorem term_zero (env : Env) (ctx : Frame) : Term env ctx 0 := by
   · intro chain disc outer ae layout fs _ _ _ hd hw
     omega
 
-theorem term_succ (env : Env) (ctx : Frame) (f : Nat) (ht : Term env ctx f) : Term env ctx (f + 1) := by
+theorem term_succ (env : Env) (ctx : Cfg) (f : Nat) (ht : Term env ctx f) : Term env ctx (f + 1) := by
   have hsame : ∀ (outer : Nat) (fs : List Frame), outer + fs.length ≤ LIMIT →
       W env.length (outer + fs.length + 1) + 1 ≤ f →
       ∀ D cur disc ext (items : List Item) m body, Item.autoesc m body ∈ items → body.any isAutoesc = false →
@@ -877,7 +874,7 @@ theorem term_succ (env : Env) (ctx : Frame) (f : Nat) (ht : Term env ctx f) : Te
                 obtain ⟨o3, fs3⟩ := q3
                 exact fine_ok (by rw [hc.2 o3 fs3 hr3, hl2, hl1])
 
-theorem term_all (env : Env) (ctx : Frame) : ∀ f, Term env ctx f
+theorem term_all (env : Env) (ctx : Cfg) : ∀ f, Term env ctx f
   | 0 => term_zero env ctx
   | f + 1 => term_succ env ctx f (term_all env ctx f)
 
@@ -910,7 +907,7 @@ theorem extendsAfterText_split (layout : List Item) (h : extendsAfterText layout
       | false => simp [extendsAfterText] at h
     | _ => simp [extendsAfterText] at h
 
-theorem specItems_texts (env : Env) (ctx : Frame) (cbs : SpecCbs) (D : Nat → List (List Item))
+theorem specItems_texts (env : Env) (ctx : Cfg) (cbs : SpecCbs) (D : Nat → List (List Item))
     (cur : Option (Nat × Nat)) (disc ext : Bool) (outer : Nat) (ae : AE) (pre more : List Item)
     (h : pre.all Item.isText = true) (fs : List Frame) :
     ∃ o, specItems env ctx cbs D cur disc ext outer ae (pre ++ more) fs =
@@ -936,7 +933,7 @@ theorem specItems_texts (env : Env) (ctx : Frame) (cbs : SpecCbs) (D : Nat → L
       | ok r => obtain ⟨o', fs'⟩ := r; simp
     | _ => simp [Item.isText] at h
 
-theorem specItems_post (env : Env) (ctx : Frame) (cbs : SpecCbs) (D : Nat → List (List Item))
+theorem specItems_post (env : Env) (ctx : Cfg) (cbs : SpecCbs) (D : Nat → List (List Item))
     (outer : Nat) (ae : AE) (post : List Item) (h : post.all Item.isPost = true) (fs : List Frame) :
     specItems env ctx cbs D none true true outer ae post fs =
       if hasExecExtends post then .error [.invalidOperation] else .ok ([], fs) := by
@@ -966,7 +963,7 @@ theorem specItems_post (env : Env) (ctx : Frame) (cbs : SpecCbs) (D : Nat → Li
 /-- every template extends something: the spec reports a *detected* error (cycle, missing
     template or a second `extends`; not exhaustion) as soon as the fuel allows `|env| + 1`
     template activations -/
-theorem cycle_detected_spec (env : Env) (ctx : Frame)
+theorem cycle_detected_spec (env : Env) (ctx : Cfg)
     (hall : ∀ T ∈ env, extendsAfterText T.layout = true) :
     ∀ d f chain disc outer ae layout fs, chain ≠ [] → chain.tail.Nodup → (∀ x ∈ chain.tail, x < env.length) →
       env.length - chain.tail.length ≤ d → d + 1 ≤ f → extendsAfterText layout = true →
@@ -1083,7 +1080,7 @@ theorem split_after_texts (pre : List Item) (x : Item) (rest : List Item)
 def IncErr (e : Err) : Prop :=
   ∃ j k, e = List.replicate j Kind.badInclude ++ [k] ∧ (k = Kind.invalidOperation ∨ k = Kind.recursion)
 
-theorem include_items_err (env : Env) (ctx : Frame) (cbs : SpecCbs)
+theorem include_items_err (env : Env) (ctx : Cfg) (cbs : SpecCbs)
     (hcb : ∀ t, t < env.length → ∀ T, env[t]? = some T → ∀ disc outer ae fs,
       ∃ e, cbs.chain [t] disc outer ae T.layout fs = .error e ∧ IncErr e)
     (D : Nat → List (List Item)) (cur : Option (Nat × Nat)) (disc ext : Bool) (outer : Nat) (ae : AE)
@@ -1102,7 +1099,7 @@ theorem include_items_err (env : Env) (ctx : Frame) (cbs : SpecCbs)
 
 /-- every template includes some existing template before anything else can go wrong: rendering
     is an error for every fuel, of the shape `BadInclude … BadInclude` around the limit error -/
-theorem include_cycle_spec (env : Env) (ctx : Frame)
+theorem include_cycle_spec (env : Env) (ctx : Cfg)
     (hall : ∀ T ∈ env, includesAfterText env T.layout = true) :
     ∀ f t, t < env.length → ∀ T, env[t]? = some T → ∀ disc outer ae fs,
       ∃ e, (specAll env ctx f).chain [t] disc outer ae T.layout fs = .error e ∧ IncErr e := by
@@ -1125,7 +1122,7 @@ theorem include_cycle_spec (env : Env) (ctx : Frame)
 
 /-! ### import of a template that extends another one -/
 
-theorem spec_simple_steps (env : Env) (ctx : Frame) (cbs : SpecCbs) (D : Nat → List (List Item))
+theorem spec_simple_steps (env : Env) (ctx : Cfg) (cbs : SpecCbs) (D : Nat → List (List Item))
     (cur : Option (Nat × Nat)) (disc ext : Bool) (outer : Nat) (ae : AE) (items : List Item)
     (h : items.all Item.isAssign = true) (base : List Frame) (fr : Frame) :
     ∃ o, specItems env ctx cbs D cur disc ext outer ae items (base ++ [fr]) =
@@ -1165,7 +1162,7 @@ theorem splitExtends_assign_some (pre post : List Item) (p : Nat) (h : pre.all I
 /-- the spec's include of a child template `t = pre ++ [extends p] ++ post` whose statements
     (and those of its parent) are top-level assignments: the new frame collects the child's
     assignments in front of *and behind* the `extends` tag, then the parent's -/
-theorem spec_include_extending (env : Env) (ctx : Frame) (f : Nat) (disc : Bool) (outer : Nat)
+theorem spec_include_extending (env : Env) (ctx : Cfg) (f : Nat) (disc : Bool) (outer : Nat)
     (t p : Nat) (T P : Template) (pre post : List Item)
     (hT : env[t]? = some T) (hP : env[p]? = some P) (hl : T.layout = pre ++ .extends true p :: post)
     (hpre : pre.all Item.isAssign = true) (hpost : post.all Item.isAssign = true)
@@ -1198,7 +1195,7 @@ theorem spec_include_extending (env : Env) (ctx : Frame) (f : Nat) (disc : Bool)
   congr 2
   apply List.take_of_length_le; simp
 
-theorem importAs_extending_step (env : Env) (ctx : Frame) (henv : EnvOK env) (f : Nat)
+theorem importAs_extending_step (env : Env) (ctx : Cfg) (henv : EnvOK env) (f : Nat)
     (cur : Option Nat) (d0 e0 : Bool) (outer : Nat) (ae : AE) (parent : Option (List Item))
     (t p v : Nat) (T P : Template) (pre post : List Item)
     (hT : env[t]? = some T) (hP : env[p]? = some P) (hl : T.layout = pre ++ .extends true p :: post)
@@ -1215,5 +1212,105 @@ theorem importAs_extending_step (env : Env) (ctx : Frame) (henv : EnvOK env) (f 
   rw [include_sim (hyp_all env ctx henv (f + 2)) henv cur false false outer [t] false
     { st with frames := st.frames ++ [[]] }]
   simp only [ho, liftS, topFrame_snoc, take_append_one, andThen_nil]
+
+/-! ### the state a render leaves behind (`State::render_block`) -/
+
+theorem ChainSt.setFrames {env : Env} {chain : List Nat} {st : St} (h : ChainSt env chain st)
+    (fs : List Frame) : ChainSt env chain { st with frames := fs } :=
+  ⟨h.blocks, h.depth, h.loaded⟩
+
+/-- the state a successful render leaves behind: the block stacks hold the definitions of the
+    whole chain that was followed, all cursors are back at 0 -/
+theorem final_chainSt (env : Env) (ctx : Cfg) (henv : EnvOK env) :
+    ∀ f chain layout st rcur disc outer ae, ChainSt env chain st → layoutOK layout = true → chain ≠ [] →
+      ∀ o st', evalImpl env ctx f rcur disc false outer ae layout st = .ok (o, st') →
+        ∃ more, ChainSt env (chain ++ more) st' := by
+  intro f
+  induction f with
+  | zero => intro chain layout st rcur disc outer ae _ _ _ o st' h; simp [evalImpl] at h
+  | succ f ih =>
+    intro chain layout st rcur disc outer ae hst hlay hne o st' hev
+    have h := hyp_all env ctx henv f
+    have hwf := WF_defs env henv chain
+    have hg : Good (defs env chain) none true 0 st :=
+      ⟨hst.blocks, (by intro n hn; cases hn), fun _ m _ => hst.depth m⟩
+    simp only [evalImpl] at hev
+    cases hs : splitExtends layout with
+    | none =>
+      have hp := sim_prefix h henv _ hwf none true 0 rcur disc false outer ae none
+        (by intro n hn; cases hn) (by intro hc; cases hc) layout
+        (fun it hm => Or.inl (splitExtends_none layout hs hlay it hm)) [] st hg
+      simp only [List.append_nil, Option.map_none, Option.isSome_none, Bool.or_false, stepItems] at hp
+      rw [hp] at hev
+      cases hr : specItems env ctx (specAll env ctx f) (defs env chain) none disc false outer ae layout st.frames with
+      | error e => rw [hr] at hev; simp [thenStepsF] at hev
+      | ok r =>
+        obtain ⟨o1, fs⟩ := r
+        rw [hr] at hev
+        simp only [thenStepsF, Except.ok.injEq, Prod.mk.injEq] at hev
+        obtain ⟨_, rfl⟩ := hev
+        exact ⟨[], by simpa using hst.setFrames fs⟩
+    | some r =>
+      obtain ⟨pre, t, post⟩ := r
+      obtain ⟨hl, hpre, hpost⟩ := splitExtends_some layout pre post t hs hlay
+      have hp := sim_prefix h henv _ hwf none true 0 rcur disc false outer ae none
+        (by intro n hn; cases hn) (by intro hc; cases hc) pre
+        (fun it hm => Or.inl (hpre it hm)) (.extends true t :: post) st hg
+      simp only [Option.map_none, Option.isSome_none, Bool.or_false] at hp
+      rw [hl, hp] at hev
+      cases hr1 : specItems env ctx (specAll env ctx f) (defs env chain) none disc false outer ae pre st.frames with
+      | error e => rw [hr1] at hev; simp [thenStepsF] at hev
+      | ok r1 =>
+        obtain ⟨o1, fs1⟩ := r1
+        rw [hr1] at hev
+        simp only [thenStepsF, stepItems, Bool.not_true, Bool.false_eq_true, if_false, Option.isSome_none, loadBlocks] at hev
+        by_cases hmem : t ∈ st.loaded
+        · simp [hmem] at hev
+        · simp only [hmem, if_false] at hev
+          cases hT : env[t]? with
+          | none => simp [hT] at hev
+          | some T =>
+            simp only [hT] at hev
+            have hst1 : ∀ fs, ChainSt env (chain ++ [t])
+                { blocks := appendBlocks st.blocks T.blocks, depth := st.depth, loaded := t :: st.loaded,
+                  frames := fs } := by
+              intro fs
+              refine ⟨?_, hst.depth, ?_⟩
+              · simp only [hst.blocks]; exact appendBlocks_defs env chain t T hT
+              · intro t'
+                cases chain with
+                | nil => exact absurd rfl hne
+                | cons c cs =>
+                  simp only [List.cons_append, List.tail_cons, List.mem_cons, List.mem_append]
+                  have := hst.loaded t'
+                  simp only [List.tail_cons] at this
+                  rw [this]; simp [or_comm]
+            have hg1 : Good (defs env (chain ++ [t])) none true 0
+                { blocks := appendBlocks st.blocks T.blocks, depth := st.depth, loaded := t :: st.loaded,
+                  frames := fs1 } :=
+              ⟨(hst1 fs1).blocks, (by intro n hn; cases hn), fun _ m _ => hst.depth m⟩
+            have hp2 := sim_prefix h henv _ (WF_defs env henv (chain ++ [t])) none true 0 rcur disc false outer ae
+              (some T.layout) (by intro n hn; cases hn) (by intro hc; cases hc) post
+              (fun it hm => (hpost it hm).elim Or.inl (fun hx => Or.inr ⟨rfl, hx⟩)) [] _ hg1
+            simp only [List.append_nil, Option.map_none, Option.isSome_some, Bool.or_true, stepItems] at hp2
+            rw [hp2] at hev
+            cases hr2 : specItems env ctx (specAll env ctx f) (defs env (chain ++ [t])) none true true outer ae post fs1 with
+            | error e => rw [hr2] at hev; simp [thenStepsF] at hev
+            | ok r2 =>
+              obtain ⟨o2, fs2⟩ := r2
+              rw [hr2] at hev
+              simp only [thenStepsF, List.append_nil] at hev
+              cases hE : evalImpl env ctx f rcur disc false outer ae T.layout
+                  { blocks := appendBlocks st.blocks T.blocks, depth := st.depth, loaded := t :: st.loaded,
+                    frames := fs2 } with
+              | error e => rw [hE] at hev; simp at hev
+              | ok r3 =>
+                obtain ⟨o3, st3⟩ := r3
+                rw [hE] at hev
+                simp only [Except.ok.injEq, Prod.mk.injEq] at hev
+                obtain ⟨_, rfl⟩ := hev
+                obtain ⟨more, hm⟩ := ih (chain ++ [t]) T.layout _ rcur disc outer ae (hst1 fs2) (henv.layout hT)
+                  (by simp) o3 st3 hE
+                exact ⟨t :: more, by simpa using hm⟩
 
 end MJ.Blocks
